@@ -9,4 +9,36 @@ func rerunOther(kind string, raw json.RawMessage) bool {
 
 func jsonUnmarshal(b []byte, v any) error { return json.Unmarshal(b, v) }
 
-func frontReplayOther(kind string, c J) bool { return false }
+func frontReplayOther(kind string, c J) bool {
+	switch kind {
+	case "diag":
+		obs := frontObserve(c["text"].(string), true)
+		delete(obs, "nodes")
+		delete(obs, "flat")
+		c["obs"] = obs
+		return true
+	case "c17":
+		obs := frontObserve(c["text"].(string), true)
+		delete(obs, "nodes")
+		delete(obs, "flat")
+		c["obs"] = obs
+		raw, _ := json.Marshal(c)
+		cs := caseFromJSON(raw)
+		er := execCase(cs)
+		run := "dropped"
+		if er.dropped == "" {
+			run = er.outcome.St
+		}
+		c["run"] = run
+		nerr, ndiag := 0, 0
+		for _, d := range asList(obs["diags"]) {
+			ndiag++
+			if d.([]any)[1] == 1 {
+				nerr++
+			}
+		}
+		c["nerr"], c["ndiag"] = nerr, ndiag
+		return true
+	}
+	return false
+}
